@@ -257,6 +257,8 @@ func isAbsoluteStep(step jparse.Node, outermost bool) bool {
 		return !outermost
 	case *jparse.PredicateNode:
 		return isAbsoluteStep(step.Expr, false)
+	case *jparse.GroupNode:
+		return isAbsoluteStep(step.Expr, false)
 	case *jparse.SortNode:
 		// An order-by applies to the whole sequence selected
 		// by the steps before it, which are part of the node.
